@@ -659,6 +659,10 @@ class state_space_model_blockdiag(ssm_impl_api.StateSpaceModel):
     def _add_diffuse_derivatives(
         self, tcoeffs_mean, tcoeffs_std, /, *, diffuse_derivatives, diffuse_eps
     ):
+        # Unpacking below would turn an array of coefficients into a valid list
+        utilities.verify_taylor_coefficient_pytree(tcoeffs_mean)
+        utilities.verify_taylor_coefficient_pytree(tcoeffs_std)
+
         # Always set the mean to zero (for now at least).
         zeros = tree.tree_map(np.zeros_like, tcoeffs_mean[0])
         tcoeffs_mean = [*tcoeffs_mean, *[zeros for _ in range(diffuse_derivatives)]]
